@@ -115,6 +115,21 @@ var corpus = []string{
 	`select ?s, ?r from ?a where {?s "p"@[] ?o . optional {?o "q"@[] ?r}} order by ?r, ?s;`,
 	`select ?s, ?r, ?w from ?a where {?s "p"@[] ?o . optional {?o "q"@[] ?r} . optional {?x "zz"@[] ?w}} order by ?w, ?r;`,
 	`select ?n, ?s, ?q, ?o from ?a where {?n "_subject"@[] ?s . ?n "_predicate"@[] ?q . ?n "_object"@[] ?o};`,
+	// a binding that an earlier clause binds to a value of ANOTHER kind than the later position needs:
+	// an anchor binding (predicate / object position) or a time bound bound to a node, a literal, or the
+	// NULL of an OPTIONAL without match; a predicate binding bound to a node; a subject bound to a literal
+	`select ?s, ?t from ?a where {?s "p"@[] ?t . ?x "r"@[] "p"@[?t]};`,
+	`select ?s, ?t from ?a where {?s "p"@[] ?t . ?x "p"@[?t] ?y};`,
+	`select ?s, ?t from ?a where {?s "q"@[] ?t . /u<a> "r"@[] "p"@[?t]};`,
+	`select ?s, ?t from ?a where {?s "p"@[] ?o . optional {?x "zz"@[?t] ?w} . ?y "r"@[] "p"@[?t]};`,
+	`select ?s, ?t from ?a where {?s "p"@[] ?o . optional {?x "zz"@[?t] ?w} . ?y "p"@[?t] ?z};`,
+	`select ?s, ?t from ?a where {?s "p"@[] ?t . ?x "p"@[?t,] ?y};`,
+	`select ?s, ?t from ?a where {?s "p"@[] ?t . ?x "r"@[] "p"@[,?t]};`,
+	`select ?s, ?t from ?a where {?s "p"@[] ?t . ?x ?t ?y};`,
+	`select ?s, ?t from ?a where {?s "q"@[] ?t . ?t "p"@[] ?y};`,
+	`select ?s, ?t from ?a where {?s "r"@[] ?t . ?t "p"@[] ?y};`,
+	`select ?s, ?t from ?a where {?s "p"@[?t] ?o . ?t "p"@[] ?y};`,
+	`select ?s, ?t from ?a where {?s "p"@[?t] ?o . ?x ?t ?y};`,
 	// group by / aggregates
 	`select ?s, count(?o) as ?n from ?a where {?s "p"@[] ?o} group by ?s;`,
 	`select ?s, count(distinct ?o) as ?n from ?a where {?s ?p ?o} group by ?s;`,
